@@ -52,8 +52,68 @@ def planner_summary(repo, rel="mixed.py", name="mixed_step_memoization"):
         for t in toks:
             by_tok[t] = join(by_tok[t], st) if t in by_tok else st
     out = []
+    ren = {"n": "a0", "len": "len"}
+
+    def rn(l):
+        return Lin({ren[k]: v for k, v in l.t.items()}, l.c)
     for t, st in sorted(by_tok.items()):
-        eqs = [r for r in st.eqs() if r.syms() <= {"n", "len"}]
-        ineqs = [i for i in st.ineq if i.syms() <= {"n", "len"}]
-        out.append((t, eqs, ineqs))
-    return out
+        eqs = [rn(r) for r in st.eqs() if r.syms() <= {"n", "len"}]
+        ineqs = [rn(i) for i in st.ineq if i.syms() <= {"n", "len"}]
+        out.append((t, eqs, ineqs, ()))
+    return (("k", "len", "cost"), out)
+
+
+def convert_cases(repo):
+    """summary of hrevolve._convert_action for the converter: per operation type the
+    possible storages and the guard facts on (n_0, n_1)"""
+    fn = repo.func("hrevolve.py", "_convert_action", required=False)
+    if fn is None:
+        return None
+    it = Interp(fn, finalize_havoc=False, partvars=("cp_action", "storage"), record_calls=())
+    it.DEFAULT_PART = ()
+    try:
+        it.run()
+    except Exception:
+        return None
+    by = {}
+    for o in it.outcomes:
+        if o.kind == "end":
+            return None
+        if o.kind != "return":
+            continue
+        v = o.what
+        if not (isinstance(v, tuple) and len(v) == 2 and isinstance(v[1], tuple) and len(v[1]) == 3):
+            return None
+        st = o.state.copy()
+        e = st.enum_get("cp_action")
+        if not e or e[0] != "in":
+            return None
+        sv = v[1][2]
+        if isinstance(sv, Tok):
+            sto = frozenset([sv.v])
+        else:
+            ee = st.enum_get(pure_sym(sv)) if pure_sym(sv) else None
+            sto = frozenset(ee[1]) if ee and ee[0] == "in" else None
+        for name, val in (("n0", v[1][0]), ("n1", v[1][1])):
+            st.forget(name + "$")
+            if isinstance(val, Lin):
+                st.add_eq(Lin.sym(name + "$") - val)
+        for s_ in list(st.symbols()):
+            if s_ not in ("n0$", "n1$"):
+                st.forget(s_)
+        st.enums, st.may, st.neq, st.cond = {}, {}, [], []
+        for t in e[1]:
+            if t in by:
+                by[t] = (join(by[t][0], st), (by[t][1] | sto) if (by[t][1] is not None and sto is not None) else None)
+            else:
+                by[t] = (st, sto)
+    ren = {"n0$": "n0", "n1$": "n1"}
+
+    def rn(l):
+        return Lin({ren[k]: v for k, v in l.t.items()}, l.c)
+    cases = []
+    for t, (st, sto) in sorted(by.items()):
+        eqs = [rn(r) for r in st.eqs() if r.syms() <= set(ren)]
+        ineqs = [rn(i) for i in st.ineq if i.syms() <= set(ren)]
+        cases.append((t, eqs, ineqs, (("sto", sto),) if sto else ()))
+    return (("k", ("n0", "n1", "sto")), cases)
